@@ -1,4 +1,5 @@
 import Cpppo.Proofs.Codec.Encap
+import Cpppo.Proofs.Codec.Typed
 
 /-!
 # C01 — Wire codec round-trip over the whole EtherNet/IP CIP message grammar
@@ -88,6 +89,21 @@ theorem members_roundtrip (ms : List Bytes) (h : MembersWF ms) : decodeMembers (
 /-- **0..N CPF items.** -/
 theorem cpf_roundtrip (cpf : Option (List Item)) (h : CpfWF cpf) : decodeCpf (encodeCpf cpf) = some cpf :=
   decodeCpf_encode cpf h
+
+/-- **Typed data, integer element types at their full width (SINT…ULINT): `struct.unpack ∘ struct.pack = id`
+for every representable value, any number of elements.** -/
+theorem typed_int_roundtrip (t : CipType) (hi : t.isInt = true) (is : List Int) (bss : List Bytes)
+    (h : is.mapM (Bytes.packInt t.signed t.size) = some bss) :
+    decodeVals t bss.flatten = some (is.map .int) := decodeVals_int t hi is bss h
+
+theorem typed_bool_roundtrip (bs : List Bool) :
+    decodeVals .bool (bs.map fun b => if b then 255 else 0) = some (bs.map .bool) := decodeVals_bool bs
+
+theorem typed_real_roundtrip (ws : List Nat) (h : ∀ w ∈ ws, w < 2 ^ 32 ∧ Float'.quiet32 w = w) :
+    decodeVals .real ((ws.map (Bytes.le 4)).flatten) = some (ws.map .f32) := decodeVals_real ws h
+
+theorem typed_lreal_roundtrip (ws : List Nat) (h : ∀ w ∈ ws, w < 2 ^ 64) :
+    decodeVals .lreal ((ws.map (Bytes.le 8)).flatten) = some (ws.map .f64) := decodeVals_lreal ws h
 
 /-! ### Non-vacuity: a concrete SendRRData request (tests of the hypotheses, not the claim) -/
 
